@@ -114,11 +114,11 @@ def run(ctx):
 
     # ------------------------------------------------------------------ runs
     big = 9_000_000
-    i_lex = V.run_batch([implrun, "lex"], hexes, hang_s=4)
-    i_pump = V.run_batch([implrun, "pump"], hexes, hang_s=4)
+    i_lex = V.run_batch([implrun, "lex"], hexes, hang_s=2, max_failures=3)
+    i_pump = V.run_batch([implrun, "pump"], hexes, hang_s=2, max_failures=3)
     m_lex = V.run_batch([model], ["lex " + h for h in hexes], hang_s=60, mem_kb=big)
     m_pump = V.run_batch([model], ["pump " + h for h in hexes], hang_s=60, mem_kb=big)
-    i_parse = {m: V.run_batch([implrun, "parse"], [m + " " + h for h in hexes], hang_s=4) for m in MODES}
+    i_parse = {m: V.run_batch([implrun, "parse"], [m + " " + h for h in hexes], hang_s=2, max_failures=3) for m in MODES}
 
     def replay(lab, d, **kw):
         r = {"label": lab, "source_hex": d.hex()[:6000], "source": d[:300].decode("utf-8", "replace")}
